@@ -33,6 +33,13 @@
 (*      returns (quic-go waits for them), the accept loop ends (and gives  *)
 (*      back the transport reference: part 1, Q7).                         *)
 (*                                                                         *)
+(* The module is the STATEMENT.  When it was written the code fell short   *)
+(* of D4/D1: quicListener.Run returns ("negotiated unknown protocol") when *)
+(* the listener of the negotiated ALPN was closed during the handshake,    *)
+(* which ends the accept loop of every protocol listener of the address    *)
+(* and leaves that connection open - reported as a finding                 *)
+(* (known_findings.d/C04qr.json), not modelled.                            *)
+(*                                                                         *)
 (* The handshake is two steps - Start (the server has picked the TLS       *)
 (* config of the listener serving the offered ALPN) and Finish (the        *)
 (* handshake completes and the accept loop dispatches by the negotiated    *)
